@@ -6,9 +6,9 @@ from harness.core import Discrepancy
 
 PROP = 'C12'
 LEVEL = 'exploration'
-RULE = ("cases = tol {None, -12..12} x deep x argument structures (floats at depth 0-3 inside lists/tuples/sets/dicts with str and non-str keys, "
+RULE = ("cases = tol {None, -12..12, 15, 16, 17, 20} x deep x argument structures (floats at depth 0-3 inside lists/tuples/sets/dicts with str and non-str keys, "
         "strings, bytes, ints, bools, None, mixed) passed positionally and by keyword x a second call derived by nudging ONE float across / not "
-        "across the rounding boundary x path {each of the 12 decorators: key(); klepto.keygen(tol, deep); real calls under raw/string/pickle/md5 "
+        "across the rounding boundary, or replaced by its equal-but-differently-typed twin 3/3.0/True (second call through the SAME decorator must be keyed on / receive its own rounded arguments) x path {each of the 12 decorators: key(); klepto.keygen(tol, deep); real calls under raw/string/pickle/md5 "
         "keymaps; the standalone simple/shallow/deep_round decorators}. Oracle = independent 25-line recursive rounder R (built-in round as the scalar "
         "primitive): key_tol(args) == key_tol=None(R(args)) type-exactly; hence pairs share an entry iff R(args1) == R(args2); the function receives "
         "the caller's original objects (identity); a call the function accepts never raises; no float => R(args) == args; standalone decorators hand "
@@ -22,7 +22,7 @@ N = {'quick': 1000, 'thorough': 12000}
 FUZZ_SECONDS = 180      # thorough tier: coverage-guided campaign over the same strategy and oracle (tools/fuzz.py)
 SHARDS = {'quick': 4, 'thorough': 16}
 
-TOLS = [None, 0, 1, 2, -1, 3, -2, 6, 12, -12, -3]
+TOLS = [None, 0, 1, 2, -1, 3, -2, 6, 12, -12, -3, 15, 16, 17, 20]      # tol counts DECIMALS: 16+ still rounds 0.1+0.2 to 0.3 and 1e-17 to 0.0
 PATHS = ['key', 'keygen', 'call', 'standalone']
 
 
@@ -87,7 +87,7 @@ def exact(a, b):
 
 # ------------------------------------------------------------ generation
 
-FL = [0.5, 1.5, 2.5, 2.54, 2.46, 2.449, 0.125, 2.675, 1234.5678, -0.5, 14.9, 15.1, 0.05, 0.049, 1.0, 3.14159, 149.99, 150.0, 1e10, 0.30000000000000004, 5e-324, -0.0]
+FL = [0.5, 1.5, 2.5, 2.54, 2.46, 2.449, 0.125, 2.675, 1234.5678, -0.5, 14.9, 15.1, 0.05, 0.049, 1.0, 3.14159, 149.99, 150.0, 1e10, 0.30000000000000004, 5e-324, -0.0, 1e-17, 3e-17, 2.5e-16, 0.7999999999999999, 1.0000000000000002]
 
 
 def floatspecs():
@@ -147,6 +147,40 @@ def nudge(spec, path, delta):
     return [t, xs]
 
 
+def twin_paths(spec, path=()):
+    """paths to leaves that have an equal-but-differently-typed twin (3 / 3.0 / True)"""
+    out = []
+    t = spec[0]
+    if t in 'iB' or (t == 'f' and float(spec[1]).is_integer() and abs(float(spec[1])) < 1e6):
+        out.append(path)
+    elif t in 'tl':
+        for i, x in enumerate(spec[1]):
+            out += twin_paths(x, path + (i,))
+    elif t == 'd':
+        for i, (k, v) in enumerate(spec[1]):
+            out += twin_paths(v, path + (i, 1))
+    return out
+
+
+def twinify(spec, path):
+    if not path:
+        t = spec[0]
+        if t == 'i':
+            return ['f', repr(float(spec[1]))]
+        if t == 'B':
+            return ['i', int(spec[1])]
+        return ['i', int(float(spec[1]))]
+    t, p = spec[0], path[0]
+    if t == 'd':
+        items = [list(kv) for kv in spec[1]]
+        k, v = items[p]
+        items[p] = [k, twinify(v, path[2:])]
+        return ['d', items]
+    xs = list(spec[1])
+    xs[p] = twinify(xs[p], path[1:])
+    return [t, xs]
+
+
 @st.composite
 def cases(draw, path, module=None, algo=None):
     tol = draw(st.sampled_from(TOLS))
@@ -160,7 +194,17 @@ def cases(draw, path, module=None, algo=None):
     where = [('a', i, p) for i, a in enumerate(args) for p in float_paths(a)] + [('k', i, p) for i, (n, v) in enumerate(kws) for p in float_paths(v)]
     args2, kws2 = copy.deepcopy(args), copy.deepcopy(kws)
     nudged = None
-    if where:
+    twins = [('a', i, p) for i, a in enumerate(args) for p in twin_paths(a)] + [('k', i, p) for i, (n, v) in enumerate(kws) for p in twin_paths(v)]
+    twin = bool(twins) and draw(st.integers(0, 3)) == 0
+    if twin:
+        # second call: the same values, one of them as its equal-but-differently-typed twin (3 -> 3.0, True -> 1): rounding changes floats only,
+        # and what the second call is keyed on / receives must not depend on the first call having been made
+        w, i, p = twins[draw(st.integers(0, len(twins) - 1))]
+        if w == 'a':
+            args2[i] = twinify(args[i], p)
+        else:
+            kws2[i][1] = twinify(kws[i][1], p)
+    elif where:
         w, i, p = where[draw(st.integers(0, len(where) - 1))]
         scale = 10.0 ** (-(tol if tol is not None else 0))
         delta = draw(st.sampled_from([0.4, -0.4, 0.6, -0.6, 0.04, 1.0, 0.5, 1e-9])) * scale
@@ -169,7 +213,7 @@ def cases(draw, path, module=None, algo=None):
         else:
             kws2[i][1] = nudge(kws[i][1], p, delta)
         nudged = [w, i, len(p)]
-    case = {'tol': tol, 'deep': deep, 'args': args, 'kws': kws, 'args2': args2, 'kws2': kws2, 'nudged': nudged, 'path': path,
+    case = {'tol': tol, 'deep': deep, 'args': args, 'kws': kws, 'args2': args2, 'kws2': kws2, 'nudged': nudged, 'twin': twin, 'path': path,
             'module': module or draw(st.sampled_from(['std', 'safe'])), 'algo': algo or draw(st.sampled_from(H.ALGOS + H.DISPATCHED + ['lru:0', 'rr:0'])),
             'named': draw(st.booleans()),
             'keymap': draw(st.sampled_from([{'cls': 'picklemap', 'opt': None, 'flat': True}, {'cls': 'picklemap', 'opt': None, 'flat': False},
@@ -287,11 +331,18 @@ def run_case(case):
                 fn0 = cls(keymap=rawmap(flat=False))(fn)
                 kt = ft.key(*a1, **k1)
                 kr = fn0.key(*Ra1, **Rk1)
+                kt2 = ft.key(*a2, **k2)
+                kr2 = fn0.key(*Ra2, **Rk2)
             else:
                 ft = klepto.keygen(keymap=km, tol=tol, deep=deep)(fn)
                 fn0 = klepto.keygen(keymap=rawmap(flat=False))(fn)
                 kt = ft(*a1, **k1)
                 kr = fn0(*Ra1, **Rk1)
+                kt2 = ft(*a2, **k2)
+                kr2 = fn0(*Ra2, **Rk2)
+            if exact(kt, kr) and not exact(kt2, kr2):
+                out.append(Discrepancy('C12/%s/second-key-differs-from-reference-rounding' % tag,
+                                       'tol=%r deep=%r after keying %r %r: args=%r kwds=%r: key %r ; reference rounding gives %r' % (tol, deep, a1, k1, a2, k2, kt2, kr2)))
             if not exact(kt, kr):
                 out.append(Discrepancy('C12/%s/key-differs-from-reference-rounding' % tag,
                                        'tol=%r deep=%r args=%r kwds=%r: key %r ; reference rounding gives %r' % (tol, deep, a1, k1, kt, kr)))
@@ -344,6 +395,15 @@ def run_case(case):
                 if not ok:
                     out.append(Discrepancy('C12/%s/received-arguments-differ-from-reference' % tag,
                                            'tol=%r: passed %r %r, function received %r %r, reference %r %r' % (tol, a1, k1, ra, rk, ea, ek)))
+                elif sk != 'shallow':
+                    # the second call through the same decorator receives ITS OWN rounded arguments
+                    g(*a2, **k2)
+                    if len(log) == 2:
+                        ra, rk = log[1]
+                        ea, ek = R_call(a2, k2, tol, sk)
+                        if not (exact(tuple(ra), ea) and exact(dict(rk), ek)):
+                            out.append(Discrepancy('C12/%s/second-call-received-arguments-differ-from-reference' % tag,
+                                                   'tol=%r: after a call with %r %r, passed %r %r, function received %r %r, reference %r %r' % (tol, a1, k1, a2, k2, ra, rk, ea, ek)))
     except Exception as e:
         out.append(Discrepancy('C12/%s/valid-call-raised/%s' % (tag, H.exc_sig(e)), 'tol=%r deep=%r args=%r kwds=%r: %r' % (tol, deep, a1, k1, e)))
     nt = None
@@ -353,9 +413,11 @@ def run_case(case):
               [(n, skeleton(v)) for n, v in case['kws']], shares)
     if straddle:
         classes.append('straddles_boundary')
+    if case.get('twin'):
+        classes.append('second_call_is_typed_twin')
     return out, nt, classes
 
 
-REQUIRED_CLASSES = ['dict_subclass', 'pair_shares', 'pair_differs', 'straddles_boundary', 'nonstr_dict_key', 'floatdepth:1', 'floatdepth:2', 'tol:-1', 'tol:None', 'tol:0',
+REQUIRED_CLASSES = ['second_call_is_typed_twin', 'tol:16', 'tol:20', 'dict_subclass', 'pair_shares', 'pair_differs', 'straddles_boundary', 'nonstr_dict_key', 'floatdepth:1', 'floatdepth:2', 'tol:-1', 'tol:None', 'tol:0',
                     'deep:True', 'deep:False', 'path:standalone', 'path:call', 'path:key', 'path:keygen']
 TRIGGERS = {}
